@@ -67,47 +67,49 @@ struct Found {
     case: Value,
 }
 
-/// Family of a failing case: configuration kind + the set of node kinds in the tree.
+/// Family of a failing case: configuration kind, and (except for guarantee
+/// configurations, where the guarantee itself is the family) the kind of the
+/// root node and of its direct children.
 fn family_of(cfg: &str, e: &E) -> String {
-    fn kinds(e: &E, out: &mut Vec<String>) {
-        let k = match e {
-            E::Col(_) | E::Lit(_) => None,
-            E::Bin(_, op, _) => Some(
-                if op.is_cmp() {
-                    "Cmp"
-                } else if op.is_arith() {
-                    "Arith"
-                } else if op.is_bit() {
-                    "Bit"
-                } else if op.is_regex() {
-                    "Regex"
-                } else {
-                    "AndOr"
-                }
-                .to_string(),
-            ),
-            E::Not(_) => Some("Not".into()),
-            E::Neg(_) => Some("Neg".into()),
-            E::Is(..) => Some("Is".into()),
-            E::In { .. } => Some("In".into()),
-            E::Between { .. } => Some("Between".into()),
-            E::Case { operand, .. } => Some(if operand.is_some() { "CaseOf".into() } else { "Case".into() }),
-            E::Cast { try_, .. } => Some(if *try_ { "TryCast".into() } else { "Cast".into() }),
-            E::Like { ci, .. } => Some(if *ci { "ILike".into() } else { "Like".into() }),
-            E::Fun(f, _) => Some(format!("{f:?}")),
-        };
-        if let Some(k) = k {
-            if !out.contains(&k) {
-                out.push(k);
+    fn kind(e: &E) -> String {
+        match e {
+            E::Col(_) | E::Lit(_) => "leaf".into(),
+            E::Bin(_, op, _) => if op.is_cmp() {
+                "Cmp"
+            } else if op.is_arith() {
+                "Arith"
+            } else if op.is_bit() {
+                "Bit"
+            } else if op.is_regex() {
+                "Regex"
+            } else {
+                "AndOr"
             }
+            .to_string(),
+            E::Not(_) => "Not".into(),
+            E::Neg(_) => "Neg".into(),
+            E::Is(..) => "Is".into(),
+            E::In { .. } => "In".into(),
+            E::Between { .. } => "Between".into(),
+            E::Case { .. } => "Case".into(),
+            E::Cast { try_, .. } => if *try_ { "TryCast".into() } else { "Cast".into() },
+            E::Like { .. } => "Like".into(),
+            E::Fun(f, _) => format!("{f:?}"),
         }
-        e.for_children(&mut |c| kinds(c, out));
     }
-    let mut ks = vec![];
-    kinds(e, &mut ks);
+    if cfg.starts_with("guar:") {
+        return cfg.to_string();
+    }
+    let mut ks: Vec<String> = vec![];
+    e.for_children(&mut |c| {
+        let k = kind(c);
+        if k != "leaf" && !ks.contains(&k) {
+            ks.push(k)
+        }
+    });
     ks.sort();
-    let kind = if cfg.starts_with("simp:") { "simp" } else { cfg };
-    format!("{kind}:{}", ks.join("+"))
+    let ck = if cfg.starts_with("simp:") { "simp" } else { cfg };
+    format!("{ck}:{}({})", kind(e), ks.join(","))
 }
 
 struct Viol {
@@ -306,8 +308,23 @@ fn check_expr(e: &E, only: Option<&str>, thorough: bool, st: &mut Stats) -> Vec<
                 {
                     let m = err.to_string();
                     let m = m.lines().next().unwrap_or("");
-                    let digits_out: String = m.chars().take(70).collect();
-                    *st.errs.entry(digits_out).or_insert(0) += 1;
+                    // drop quoted / numeric payloads so that kinds aggregate
+                    let mut kind = String::new();
+                    let mut in_q = false;
+                    for ch in m.chars() {
+                        if ch == '\'' {
+                            in_q = !in_q;
+                            if in_q {
+                                kind.push_str("'..'");
+                            }
+                            continue;
+                        }
+                        if !in_q {
+                            kind.push(ch);
+                        }
+                    }
+                    let kind: String = kind.chars().take(90).collect();
+                    *st.errs.entry(kind).or_insert(0) += 1;
                 }
                 if orig.batch_ok {
                     st.add("simplifier_error_while_original_evaluates_everywhere", 1);
@@ -399,9 +416,10 @@ fn check_expr(e: &E, only: Option<&str>, thorough: bool, st: &mut Stats) -> Vec<
         }
     };
 
-    for (canon, cycles) in CONFIGS {
+    for (ci, (canon, cycles)) in CONFIGS.into_iter().enumerate() {
         let label = cfg_label(canon, cycles);
-        if !want(&label) {
+        // quick tier: the first three configurations
+        if !want(&label) || (ci == 3 && !thorough && only.is_none()) {
             continue;
         }
         let c2 = coerced.clone();
@@ -656,6 +674,7 @@ static ERRS: Mutex<BTreeMap<String, u64>> = Mutex::new(BTreeMap::new());
 fn explore(ctx: &Ctx) {
     let thorough = ctx.thorough();
     let space = egen::space(thorough);
+    ctx.set_extra("generation_s", json!(ctx.elapsed().as_secs_f64()));
     let rows: Vec<String> = table::columns()
         .iter()
         .map(|c| format!("{}: {:?}{} {} values", c.name, c.ty, if c.nullable { "" } else { " NOT NULL" }, c.domain.len()))
@@ -666,7 +685,7 @@ fn explore(ctx: &Ctx) {
             "grammar": space.description,
             "row_table": rows,
             "rows": "cartesian product of the domains of the referenced columns (<= 4 columns referenced)",
-            "simplifier_configs": CONFIGS.iter().map(|(c, m)| cfg_label(*c, *m)).collect::<Vec<_>>(),
+            "simplifier_configs": CONFIGS.iter().take(if thorough { 4 } else { 3 }).map(|(c, m)| cfg_label(*c, *m)).collect::<Vec<_>>(),
             "guarantee_menu": guar::menu().iter().map(|g| g.to_string()).collect::<Vec<_>>(),
             "guarantee_sets": if thorough { "singles and pairs on different columns" } else { "singles" },
         }),
@@ -676,28 +695,46 @@ fn explore(ctx: &Ctx) {
     ctx.assume("the reference declines (no verdict) on NaN, on float text outside plain decimal syntax and on regex syntax outside its subset");
     ctx.count("expression_trees_generated", space.exprs.len() as u64);
     let found: Mutex<Vec<Found>> = Mutex::new(vec![]);
+    let run_one = |e: &E, st: &mut Stats| {
+        let viols = check_expr(e, None, thorough, st);
+        // one expression = one finding: the first violating configuration
+        if let Some(v) = viols.into_iter().next() {
+            let case = Case::Expr { e: e.clone(), cfg: Some(v.cfg.clone()) };
+            found.lock().unwrap().push(Found {
+                nodes: e.nodes(),
+                text: e.to_string(),
+                family: family_of(&v.cfg, e),
+                key: format!("{}|{}", v.cfg, e),
+                what: v.what,
+                case: serde_json::to_value(&case).unwrap(),
+            });
+        }
+    };
     space.exprs.par_chunks(64).for_each(|chunk| {
         let mut st = Stats::default();
         for e in chunk {
             if ctx.out_of_time() {
                 break;
             }
-            let viols = check_expr(e, None, thorough, &mut st);
-            // one expression = one finding: the first violating configuration
-            if let Some(v) = viols.into_iter().next() {
-                let case = Case::Expr { e: e.clone(), cfg: Some(v.cfg.clone()) };
-                found.lock().unwrap().push(Found {
-                    nodes: e.nodes(),
-                    text: e.to_string(),
-                    family: family_of(&v.cfg, e),
-                    key: format!("{}|{}", v.cfg, e),
-                    what: v.what,
-                    case: serde_json::to_value(&case).unwrap(),
-                });
+            run_one(e, &mut st);
+        }
+        flush(ctx, st);
+    });
+    // thorough: depth-3 trees, generated on the fly around every depth-2 predicate
+    space.d3_seeds.par_chunks(16).for_each(|chunk| {
+        let mut st = Stats::default();
+        for b in chunk {
+            if ctx.out_of_time() {
+                break;
+            }
+            for e in egen::d3_contexts(b) {
+                st.add("depth3_trees", 1);
+                run_one(&e, &mut st);
             }
         }
         flush(ctx, st);
     });
+    ctx.set_extra("expressions_done_s", json!(ctx.elapsed().as_secs_f64()));
     let preds = pred_space(thorough);
     ctx.count("predicate_lists_generated", preds.len() as u64);
     preds.par_chunks(256).for_each(|chunk| {
@@ -732,6 +769,32 @@ fn explore(ctx: &Ctx) {
     let mut found = found.into_inner().unwrap();
     found.sort_by(|a, b| (a.nodes, &a.text, &a.key).cmp(&(b.nodes, &b.text, &b.key)));
     ctx.count("failing_expressions_total", found.len() as u64);
+    // drop failures that contain a smaller failing expression as a proper sub-tree
+    {
+        // (sub-tree must fail under the same kind of configuration)
+        let kind_of = |f: &Found| f.key.split(|c| c == '|' || c == ',').next().unwrap_or("").to_string();
+        let failing: std::collections::HashSet<(String, E)> = found
+            .iter()
+            .filter_map(|f| match serde_json::from_value::<Case>(f.case.clone()) {
+                Ok(Case::Expr { e, .. }) => Some((kind_of(f), e)),
+                _ => None,
+            })
+            .collect();
+        fn has_failing_subtree(k: &str, e: &E, failing: &std::collections::HashSet<(String, E)>) -> bool {
+            let mut hit = false;
+            e.for_children(&mut |c| {
+                if !hit && (failing.contains(&(k.to_string(), c.clone())) || has_failing_subtree(k, c, failing)) {
+                    hit = true;
+                }
+            });
+            hit
+        }
+        found.retain(|f| match serde_json::from_value::<Case>(f.case.clone()) {
+            Ok(Case::Expr { e, .. }) => !has_failing_subtree(&kind_of(f), &e, &failing),
+            _ => true,
+        });
+    }
+    ctx.count("failing_expressions_minimal", found.len() as u64);
     let mut fams: Vec<String> = vec![];
     for f in &found {
         if !fams.contains(&f.family) {
